@@ -23,6 +23,12 @@ Sub-checks (names usable with --only):
               mesh bases; permutations and classical bases likewise; all objects of one value
               must agree under ==, !=, hash, set/dict lookup both ways and the order operators
               (within the group and against a fixed list of probes)
+  scale       sparse, fully enumerated structured family at sizes straddling thresholds of the
+              runtime (7..12, 31..34, 255..258, 300; thorough 511..513, 1000): identity, reverse,
+              adjacent transpositions near both ends, rotations, k*i mod n, layered, sums with a
+              long monotone permutation, also obtained along other routes; mesh-type patterns
+              over them; adjacency sets with values >= 8 / >= 32 in several input forms; all
+              pair laws, sorted()/min()/max() against (length, entries), Basis canonical form
   perm_order  all ordered pairs of S<=5 (thorough S<=6): the six operators against (length,
               entries); sorted() of S<=n from rotated/reversed orders
   history     BFS over histories of {hash x_i, use x_i, retain an object of some size class,
@@ -75,6 +81,10 @@ def lib():
 
 def build_perm(p, variant):
     L = lib()
+    if variant == "inverse2":
+        return L.Perm(tuple(p)).inverse().inverse()
+    if variant == "reverse2":
+        return L.Perm(tuple(p)).reverse().reverse()
     if variant == "list":
         return L.Perm(list(p))
     if variant == "gen":
@@ -84,9 +94,56 @@ def build_perm(p, variant):
     return L.Perm(tuple(p))
 
 
+def shape_values(n, shape, param):
+    """Structured permutations of length n with an obvious definition (the scale family)."""
+    idn = list(range(n))
+    if shape == "identity":
+        return tuple(idn)
+    if shape == "reverse":
+        return tuple(idn[::-1])
+    if shape == "id-swap":              # identity with positions param, param+1 exchanged
+        p = idn[:]
+        p[param], p[param + 1] = p[param + 1], p[param]
+        return tuple(p)
+    if shape == "rev-swap":
+        p = idn[::-1]
+        p[param], p[param + 1] = p[param + 1], p[param]
+        return tuple(p)
+    if shape == "rotation":             # i -> (i + param) mod n
+        return tuple((i + param) % n for i in idn)
+    if shape == "multiply":             # i -> param * i mod n, param coprime to n
+        return tuple((param * i) % n for i in idn)
+    if shape == "layered":              # increasing sequence of decreasing layers of size param
+        out = []
+        for lo in range(0, n, param):
+            out.extend(range(min(n, lo + param) - 1, lo - 1, -1))
+        return tuple(out)
+    if shape == "first-then-decreasing":    # value param first, the rest decreasing
+        return (param,) + tuple(v for v in range(n - 1, -1, -1) if v != param)
+    if shape == "021+increasing":       # direct sum of 021 and a long increasing permutation
+        return (0, 2, 1) + tuple(range(3, n))
+    if shape == "102-decreasing":       # skew sum of 102 and a long decreasing permutation
+        return (n - 2, n - 3, n - 1) + tuple(range(n - 4, -1, -1))
+    raise ValueError(shape)
+
+
+def perm_values(x):
+    """spec[1] is either the list of entries or ["shape", n, shape, param]."""
+    if len(x) and isinstance(x[0], str):
+        return list(shape_values(x[1], x[2], x[3]))
+    return list(x)
+
+
+def resolved(spec):
+    if spec[0] in ("basis", "meshbasis"):
+        return [spec[0], [resolved(s) for s in spec[1]]] + list(spec[2:])
+    return [spec[0], perm_values(spec[1])] + list(spec[2:])
+
+
 def build(entry):
     L = lib()
     spec, variant = entry
+    spec = resolved(spec)
     kind = spec[0]
     if kind == "basis":
         objs = [build([s, "plain"]) for s in spec[1]]
@@ -107,15 +164,22 @@ def build(entry):
             return L.MeshPatt(p, (c for c in cells))
         return L.MeshPatt(p, cells)
     rev = variant == "rev"
+
+    def arg(a):
+        a = list(a)
+        if variant == "set":
+            return set(a)
+        if variant == "fset":
+            return frozenset(a[::-1])
+        if variant == "gen":
+            return (v for v in a[::-1])
+        return a[::-1] if rev else a
     if kind == "biv":
-        a, b = list(spec[2]), list(spec[3])
-        return L.Biv(p, a[::-1] if rev else a, b[::-1] if rev else b)
+        return L.Biv(p, arg(spec[2]), arg(spec[3]))
     if kind == "vinc":
-        a = list(spec[2])
-        return L.Vinc(p, a[::-1] if rev else a)
+        return L.Vinc(p, arg(spec[2]))
     if kind == "covinc":
-        a = list(spec[2])
-        return L.Covinc(p, a[::-1] if rev else a)
+        return L.Covinc(p, arg(spec[2]))
     raise ValueError(kind)
 
 
@@ -129,9 +193,20 @@ def try_build(part, entry, report=True):
         return None
 
 
+_KEYS = {}
+
+
 def key(entry):
-    """Reference identity."""
-    spec = entry[0]
+    """Reference identity (memoised on the entry's text)."""
+    r = repr(entry)
+    k = _KEYS.get(r)
+    if k is None:
+        k = _KEYS[r] = _key(entry)
+    return k
+
+
+def _key(entry):
+    spec = resolved(entry[0])
     kind = spec[0]
     if kind == "perm":
         return ("P", tuple(spec[1]))
@@ -1134,6 +1209,162 @@ def replay_routes(ctx, case):
 
 
 # --------------------------------------------------------------------------------------------
+# E1: scale - sparse, fully enumerated structured family at sizes straddling runtime thresholds
+# --------------------------------------------------------------------------------------------
+# small-int cache (257), set table sizes (8, 32), byte sizes (256); shapes with an obvious
+# definition so that the (length, entries) reference is immediate.
+
+SCALE_SIZES_QUICK = (7, 8, 9, 10, 11, 12, 31, 32, 33, 34, 255, 256, 257, 258, 300)
+SCALE_SIZES_THOROUGH = SCALE_SIZES_QUICK + (511, 512, 513, 1000)
+
+
+def scale_shapes(n):
+    import math
+    out = [("identity", 0), ("reverse", 0), ("021+increasing", 0), ("102-decreasing", 0)]
+    for i in (0, 1, 2, n - 4, n - 3, n - 2):
+        out.append(("id-swap", i))
+        out.append(("rev-swap", i))
+    for r in (1, 2, n // 2, n - 1):
+        out.append(("rotation", r))
+    for k in (2, 3, 5, 7):
+        if math.gcd(k, n) == 1:
+            out.append(("multiply", k))
+    out += [("layered", 2), ("layered", 3)]
+    for q in (0, 1, n - 1):
+        out.append(("first-then-decreasing", q))
+    # distinct values only
+    seen, res = set(), []
+    for sh, par in out:
+        v = shape_values(n, sh, par)
+        assert R.is_perm(v), (n, sh, par)
+        if v not in seen:
+            seen.add(v)
+            res.append((sh, par))
+    return res
+
+
+def scale_perm_entries(quick):
+    ents = []
+    for n in (SCALE_SIZES_QUICK if quick else SCALE_SIZES_THOROUGH):
+        for sh, par in scale_shapes(n):
+            ents.append([["perm", ["shape", n, sh, par]], "plain"])
+        # the same value along other routes (equal objects must not be distinguished)
+        for sh, par in (("identity", 0), ("id-swap", n - 2), ("rotation", 1)):
+            for variant in (("gen", "std", "inverse2") if quick else
+                            ("list", "gen", "std", "inverse2", "reverse2")):
+                ents.append([["perm", ["shape", n, sh, par]], variant])
+    return ents
+
+
+def scale_mesh_entries(quick):
+    """Mesh-type patterns over long permutations (their order rests on the order of the
+    permutations) and adjacency sets containing values >= 8 / >= 32 in several input forms."""
+    ents = []
+    for n in ((9, 33, 257) if quick else (9, 10, 33, 34, 256, 257, 258)):
+        for sh, par in ((("identity", 0), ("reverse", 0), ("id-swap", n - 2)) if quick else
+                        (("identity", 0), ("reverse", 0), ("id-swap", 0), ("id-swap", n - 2))):
+            P = ["shape", n, sh, par]
+            for cells in ([], [[0, 0]], [[n, n]], [[n - 1, 8 if n > 8 else 0]],
+                          [[0, 0], [n, n]]):
+                ents.append([["mesh", P, cells], "plain"])
+            ents.append([["mesh", P, [[0, 0], [n, n]]], "rev"])
+            for adj in (([n - 1], [0, 8, n]) if quick else ([n - 1], [1, n - 1], [0, 8, n])):
+                for variant in ("plain", "rev", "set", "fset", "gen"):
+                    ents.append([["vinc", P, adj], variant])
+                ents.append([["covinc", P, adj], "plain"])
+                ents.append([["covinc", P, adj], "set"])
+            ents.append([["biv", P, [1, n - 1], [0, 8]], "plain"])
+            ents.append([["biv", P, [1, n - 1], [0, 8]], "set"])
+    return ents
+
+
+_SCALE = {}
+
+
+def scale_universe(quick):
+    u = _SCALE.get(quick)
+    if u is None:
+        u = _SCALE[quick] = scale_perm_entries(quick) + scale_mesh_entries(quick)
+    return u
+
+
+def shard_scale_pairs(shard):
+    quick, lo, hi = shard
+    U = scale_universe(quick)
+    part = Partial()
+    objs = [try_build(part, e, report=False) for e in U]
+    keys = [key(e) for e in U]
+    for i in range(lo, hi):
+        x = try_build(part, U[i])
+        if x is None:
+            continue
+        for j, y in enumerate(objs):
+            if y is None or family(keys[i]) != family(keys[j]):
+                continue
+            check_pair(part, U[i], U[j], x, y)
+            part.add(1, 1 if (keys[i] == keys[j] and i != j) or
+                     (keys[i][0] == "P" and len(keys[i][1]) == len(keys[j][1]) and i != j) else 0)
+    return part
+
+
+def check_scale_sorted(part, quick):
+    """sorted()/min()/max() of all scale permutations from several arrangements against the
+    (length, entries) reference; Basis of all shapes of one length (<= 300) from several
+    arrangements: one canonical tuple, in reference order."""
+    L = lib()
+    U = [e for e in scale_universe(quick) if e[0][0] == "perm" and e[1] == "plain"]
+    vals = [key(e)[1] for e in U]
+    want = sorted(vals, key=lambda t: (len(t), t))
+    for arr, order in enumerate(rotations(range(len(U)), 6)):
+        case = {"what": "sorted", "quick": quick, "arrangement": arr}
+        try:
+            objs = [build(U[i]) for i in order]
+            got = [tuple(o) for o in sorted(objs)]
+            mn, mx = tuple(min(objs)), tuple(max(objs))
+        except Exception as exc:  # noqa
+            part.violation("scale:sorted", case, {"exception": repr(exc)})
+            continue
+        if got != want or mn != want[0] or mx != want[-1]:
+            t = next((t for t in range(len(want)) if got[t] != want[t]), None)
+            part.violation("scale:sorted", case,
+                           {"first_difference_at": t,
+                            "got_length": None if t is None else len(got[t]),
+                            "expected_length": None if t is None else len(want[t]),
+                            "min_ok": mn == want[0], "max_ok": mx == want[-1]})
+        part.add(1, 1)
+    sizes = [n for n in (SCALE_SIZES_QUICK if quick else SCALE_SIZES_THOROUGH) if n <= 300]
+    for n in sizes:
+        ents = [e for e in U if e[0][1][1] == n]
+        wantn = sorted((key(e)[1] for e in ents))
+        first = None
+        for arr, order in enumerate(rotations(range(len(ents)), 3)):
+            case = {"what": "basis", "quick": quick, "n": n, "arrangement": arr}
+            try:
+                b = L.Basis(*[build(ents[i]) for i in order])
+                got = [tuple(e) for e in b]
+                if got != wantn:
+                    part.violation("scale:basis", case,
+                                   {"elements": len(got), "expected_elements": len(wantn),
+                                    "in_reference_order": got == sorted(got)})
+                    break
+                if first is None:
+                    first = b
+                elif not (b == first and first == b and hash(b) == hash(first)):
+                    part.violation("scale:basis", case, {"equal_to_first_arrangement": False})
+                    break
+            except Exception as exc:  # noqa
+                part.violation("scale:basis", case, {"exception": repr(exc)})
+                break
+            part.add(1, 1)
+
+
+def shard_scale_sorted(shard):
+    part = Partial()
+    check_scale_sorted(part, shard[0])
+    return part
+
+
+# --------------------------------------------------------------------------------------------
 # E2: allocation histories between hash computations
 # --------------------------------------------------------------------------------------------
 
@@ -1440,6 +1671,24 @@ def run(ctx, only=None):
             "order_probes": len(route_probes())}
         ctx.section("routes", mesh_values=len(vals), value_pairs=len(prs),
                     evaluations=ctx.evals - e0)
+    if want("scale"):
+        e0 = ctx.evals
+        SU = scale_universe(quick)
+        per = max(1, len(SU) // 96)
+        ctx.pmap(shard_scale_pairs, [(quick, lo, min(len(SU), lo + per))
+                                     for lo in range(0, len(SU), per)])
+        ctx.pmap(shard_scale_sorted, [(quick,), (quick,)][:1] + [])
+        sizes = SCALE_SIZES_QUICK if quick else SCALE_SIZES_THOROUGH
+        ctx.bounds["scale"] = {
+            "sizes": list(sizes),
+            "shapes_per_size": sorted(set(sh for sh, _ in scale_shapes(300))),
+            "entries": len(SU),
+            "pairs": "all ordered pairs within the permutation family and within the mesh "
+                     "family (all laws of the pairs sub-check, (length, entries) reference)",
+            "sorted": "all scale permutations from 13 arrangements; Basis of all shapes of one "
+                      "length (<= 300: containment search recurses once per pattern entry) "
+                      "from 7 arrangements"}
+        ctx.section("scale", entries=len(SU), sizes=list(sizes), evaluations=ctx.evals - e0)
     if want("history"):
         # depth (operations) from the fresh state / after all three objects were hashed once
         depths = [(4, 3) if quick else (5, 4)] * len(CONFIGS)
@@ -1530,6 +1779,8 @@ def replay(ctx, rec):
                 ctx.violation("perm_order", case, {"got": "differs"})
     elif sub == "build":
         try_build(ctx, case["entry"])
+    elif sub.startswith("scale:"):
+        check_scale_sorted(ctx, case["quick"])
     elif sub.startswith("routes:"):
         replay_routes(ctx, case)
     elif sub.startswith("history:"):
